@@ -11,6 +11,13 @@ HERE = Path(__file__).resolve().parent.parent
 BASELINE = "cd /repo && /venv/bin/python -m pytest -ra -q -p no:cacheprovider --timeout=900 --continue-on-collection-errors"
 
 CHECKS = {
+    "C02": dict(
+        technique="static analysis: element-wise symbolic execution of the forward kernel (closed form of one image's contribution), path/selection rules on the image loop of the clang AST, symbolic block addressing, open-term and structural rules on the Python reference and on the index maps handed to the kernel for the two force-constant layouts",
+        level="other",
+        text="Decides the shape of the lattice Fourier sum in both implementations: each term is Phi(j0, j'l) e^{+2 pi i q.s} / sqrt(m_j m_j'), averaged over the stored shortest vectors of exactly that (supercell atom, primitive atom) pair; the sum keeps exactly the supercell atoms that are images of j' and runs over all of them; the 3x3 block lands at (3j.., 3j'..); the maps handed to the kernel select the same atoms in the full and the compact layout; eigenvalues become frequencies by sign(e) sqrt|e| factor. Does not decide that the stored vectors are the minimum-image vectors (C05, a lattice theorem), nor equality of numbers with a closed-form crystal.",
+        note="Trusted: clang-14 JSON AST, sympy. Shares the forward-kernel rules with C06. The Hermitian symmetrisation that follows is decided under C03, the NAC additions under C08.",
+        ref="DESIGN.md §3 C02",
+    ),
     "C03": dict(
         technique="static analysis: post-dominance of the Hermitian symmetrisation in the clang AST of the D(q) producers (statement-list position relative to the OpenMP/serial twin and the single return), algebra of make_Hermitian's loop body by source-to-sympy translation, symbolic loop-bound extraction (every pair j >= i, diagonal included), open-term rules for the Python reference and the masses setter",
         level="other",
@@ -127,7 +134,6 @@ CHECKS = {
 
 NOT_APPLICABLE = {
     "C01": "exact recovery of force constants quantifies over space groups/supercells and the rank of a pseudo-inverse; no clause is visible in code shape beyond kernel ABI/bounds (decided under C13)",
-    "C02": "equality with the lattice Fourier sum is a relation between two loop nests over runtime arrays; comparing them is symbolic execution, outside static analysis (structural fragments are decided under C13/C17/C03)",
     "C05": "completeness of the 65-point search window is a theorem about lattices, not a shape of the code; bounded-write and sparse/dense agreement fragments are under C13",
     "C07": "projection/idempotence and compact==full are relations over all arrays; the defect class depends on which index pairs coincide at run time",
 }
